@@ -60,7 +60,9 @@ def evaluate(prop, n):
     try:
         notes = open(os.path.join(src, 'notes.md')).read() if os.path.exists(os.path.join(src, 'notes.md')) else ''
         meta['needs_to_manifest'] = notes.strip()[:1500]
-        env = dict(os.environ, PYTHONPATH=scratch, PYTHONDONTWRITEBYTECODE='1')
+        # the helpers' demonstrations create temporary files: keep them inside the scratch worktree (removed with it), not in /tmp
+        os.makedirs(os.path.join(scratch, '.tmp'), exist_ok=True)
+        env = dict(os.environ, PYTHONPATH=scratch, PYTHONDONTWRITEBYTECODE='1', TMPDIR=os.path.join(scratch, '.tmp'))
         demo = os.path.join(src, 'demo.py')
         rc0, out0 = sh(f'/venv/bin/python {demo}', cwd=scratch, env=env, timeout=600)
         meta['demo_without_patch_exit'] = rc0
